@@ -340,6 +340,26 @@ def r4_rejections(report, repo):
   ok = bool(gt) and all(isinstance(n.succ('T').ast, ast.Raise) for n in gt)
   report.check(ok, rule, d.qualname, 'raises', d.node,
                'wrong coordinate count raises InvalidDimensionsError')
+  # the count is taken of the caller's coordinates, not of a rebound /
+  # wrapped key: the _coordinates_len argument is the parameter itself and no
+  # assignment to it can reach the count.
+  params = lib.param_names(d.node)
+  lens = [(n, c) for n, c in lib.nodes_with_call(gd, name='_coordinates_len')]
+  report.expect_instances(rule, len(lens), 1, '_coordinates_len calls')
+  for n, c in lens:
+    arg = c.args[0] if c.args else None
+    is_param = isinstance(arg, ast.Name) and arg.id in params and \
+        arg.id != 'self'
+    rebinds = [m for m in gd.nodes if m.kind == 'stmt' and m.ast is not None
+               and is_param and any(
+                   isinstance(t, ast.Name) and t.id == arg.id
+                   for t in core.assigned_targets(m.ast))]
+    ok = is_param and not any(n in gd.reach([m]) for m in rebinds)
+    report.check(ok, rule, d.qualname, 'count-of-raw-coordinates', c,
+                 'the coordinate count is taken of the caller-supplied '
+                 'coordinates', 'the coordinate count is taken after the '
+                 'coordinates were rebound/wrapped, so a wrong-length key can '
+                 'pass the check')
 
 
 def r5_finalize_measurements(report, repo):
@@ -558,7 +578,38 @@ def r8_order(report, repo):
   lib.decision_table(report, rule, nv, ['dims', 'cb'], classify, spec)
 
 
+def r9_value_holders(report, repo):
+  rule = 'C06-R9'
+  report.rule(rule, 'T-ARGS: every value holder constructed in '
+              'core/measurements.py receives the measurement\'s transform_fn; '
+              'derived copies (with_args) do not replace the holder')
+  sites = []
+  for fi in repo.module(ME).all_funcs():
+    for c in core.calls_in(fi.node):
+      if call_name(c) in ('MeasuredValue', 'DimensionedMeasuredValue'):
+        sites.append((fi, c))
+  report.expect_instances(rule, len(sites), 2, 'value-holder constructions')
+  for fi, c in sites:
+    kw = {k.arg: k.value for k in c.keywords}
+    ok = dotted(kw.get('transform_fn')) in ('self.transform_fn',
+                                            'self._transform_fn')
+    report.check(ok, rule, fi.qualname, 'holder-gets-transform', c,
+                 'value holder built with the measurement\'s transform_fn',
+                 'a value holder is built without the declared transform: '
+                 'later stores keep the raw value')
+  wa = repo.func(ME, 'Measurement.with_args')
+  for c in core.calls_in(wa.node):
+    if call_name(c) in ('data.attr_copy', 'attr_copy'):
+      bad = [k.arg for k in c.keywords
+             if k.arg in ('measured_value', 'transform_fn', 'dimensions')
+             or k.arg is None]
+      report.check(not bad, rule, wa.qualname, 'copy-keeps-holder', c,
+                   'with_args copies holder/transform unchanged',
+                   'with_args overrides %s of the copy' % bad)
+
+
 def run(report, repo):
+  report.guard(r9_value_holders, report, repo)
   report.guard(r1_validate, report, repo)
   report.guard(r2_validated_value, report, repo)
   report.guard(r3_stored_value, report, repo)
